@@ -38,7 +38,8 @@ def cases(tier, seed):
                         npm=npm, seed=int(rng.integers(1 << 30)), load_factor=float(np.round(rng.choice([1.0, 2.5, -1.0, rng.uniform(0.2, 4)]), 3)),
                         mrho=float(np.round(10 ** rng.uniform(2.5, 4), 1)), wwr=float(np.round(rng.uniform(1.0, 2.5), 3)),
                         fuel_mass=float(np.round(10 ** rng.uniform(2, 5), 1)), reserve=float(np.round(rng.choice([0.0, rng.uniform(100, 2e4)]), 1)),
-                        fuel_density=float(np.round(rng.uniform(700, 850), 1)), fem_origin=float(np.round(rng.uniform(0.1, 0.7), 3)), units=bool(k % 4 == 1)))
+                        fuel_density=float(np.round(rng.uniform(700, 850), 1)), fem_origin=float(np.round(rng.uniform(0.1, 0.7), 3)), units=bool(k % 4 == 1),
+                        sym_flag=["bool", "numpy_bool", "bool", "int", "bool"][k % 5]))
     # the same resultants through the repository's own structures-only group (SpatialBeamAlone) for every combination of load sources
     n = 16 if tier == "quick" else 320
     for k in range(n):
@@ -77,6 +78,12 @@ def run_loads(c, o):
                 struct_weight_relief=c["relief"], distributed_fuel_weight=c["fuel"], exact_failure_constraint=False,
                 Wf_reserve=c["reserve"], fuel_density=c["fuel_density"])
     surf["yield"] = 3e8
+    # the symmetry flag as it arrives from arrays, files or C-style code: any truthy / falsy value, not only the singletons True / False
+    flavour = c.get("sym_flag", "bool")
+    if flavour == "numpy_bool":
+        surf["symmetry"] = np.bool_(sym)
+    elif flavour == "int":
+        surf["symmetry"] = int(sym)
     if fem == "tube":
         surf["fem_origin"] = c["fem_origin"]
     else:
